@@ -373,10 +373,10 @@ def _e2_shards(tier):
 
 def _e1_shards(tier):
     N, D, F = (4, 3, 2) if tier == "quick" else (5, 3, 2)
-    profiles = [{}, {"open": 1}, {"open": 2}, {"open": 3}, {"open": 4}, {"open": 5}, {"msg": 4}, {"fin": 1}, {"exc": 2}, {"flaky_first": 0}]
+    profiles = [{}, {"open": 1}, {"open": 2}, {"open": 3}, {"open": 4}, {"open": 5}, {"msg": 4}, {"fin": 1}, {"exc": 2}, {"flaky_first": 0}, {"open": 6, "exc": 7, "ext": 1, "F": 0}, {"open": 6, "F": 0}]
     out = []
     for p in profiles:
-        s = dict(p, N=N if not p else N - 1, D=D, F=F)
+        s = dict(dict(N=N if not p else N - 1, D=D, F=F), **p)
         for pre in enumerate_prefixes(body_E1, "X", {}, s, 3 if (not p or tier != "quick") else 1):
             out.append(dict(s, prefix=pre))
     return out
@@ -400,7 +400,7 @@ OBLIGATIONS = [
         shards=_e1_shards,
         twin=[{"N": 4, "D": 3, "F": 2, "twin_label": "end-of-nested-action-failed"}],
         timeout={"quick": 100, "thorough": 900},
-        bounds={"quick": "op sequences <= 4 ops (baseline profile; <= 3 ops for the other profiles), depth <= 3, <= 2 failing calls of the other destination at solver-chosen points (incl. on failure reports), 10 style profiles, failing destination registered before/after the healthy one", "thorough": "<= 5 ops (baseline profile; <= 4 ops for the others), <= 2 failing calls"},
+        bounds={"quick": "op sequences <= 4 ops (baseline profile; <= 3 ops for the other profiles), depth <= 3, <= 2 failing calls of the other destination at solver-chosen points (incl. on failure reports), 12 style profiles (incl. finish(exc) called inside the action's own context with a raising extractor - without destination faults, since a report about an end message written inside its own context necessarily follows it), failing destination registered before/after the healthy one", "thorough": "<= 5 ops (baseline profile; <= 4 ops for the others), <= 2 failing calls"},
     ),
     Ob(
         "E2",
